@@ -30,8 +30,8 @@ PROPS['C13'] = dict(
     design_ref='DESIGN.md §4 C13',
     technique='deductive: data structure against an abstract view; VCs from the real AST of arglist.py with quantified set invariants, SMT-discharged; the step from the abstract view to the eager meaning (lemma L13) bounded-exhaustive on the spec functions',
     level_text='Every mutating and reading method of CompilerArgs is proved, for all contents and all classification tables, to act as the corresponding list operation on the abstraction function view(container, pre, post, flag): flush_pre_post computes it (three loop invariants), += extends pre/post by the accepted split of the batch, the readers flush first. A method that forgets to flush, reorders, loses or invents an argument fails a named obligation.',
-    level_note='The container methods are proved for EVERY classification (definitional abstraction can/prep of the pure classmethods _can_dedup/_should_prepend); for the C-like compilers the classification itself is under contract too (_can_dedup[clike], _should_prepend[clike]: tables and order of the tests against the kinds the statement names; the versioned-shared-library pattern compared by SMT with the names the statement means), the other subclasses are not; os.path.isabs uninterpreted; the compiler object opaque. Lemma L13 (view commutes with the statement-level eager meaning) is checked bounded-exhaustively, not proved. __len__, __eq__, __radd__ and extend_preserving_lflags are outside the contracts.',
-    not_decided=['__len__ (counts pending duplicates), __eq__ (does not flush the other operand), __radd__', 'CLikeCompilerArgs.to_native group insertion and -isystem filtering'],
+    level_note='The container methods are proved for EVERY classification (definitional abstraction can/prep of the pure classmethods _can_dedup/_should_prepend); for the C-like compilers the classification itself is under contract too (_can_dedup[clike], _should_prepend[clike]: tables and order of the tests against the kinds the statement names; the versioned-shared-library pattern compared by SMT with the names the statement means), the other subclasses are not; os.path.isabs uninterpreted; the compiler object opaque. Lemma L13 (view commutes with the statement-level eager meaning) is checked bounded-exhaustively, not proved. __radd__ and extend_preserving_lflags are outside the contracts (__len__ and __eq__ were, until the observation of a sub-agent: both were defective and are now under contract).',
+    not_decided=['__radd__', 'CLikeCompilerArgs.to_native group insertion and -isystem filtering'],
 )
 PROPS['C18'] = dict(
     modules=['specs.tap', 'specs.mtest', 'specs.taprun', 'contracts.tap', 'lemmas.taprun'],
